@@ -479,16 +479,8 @@ class Tensor:
         return F.slice(self, key)
     
     def __iter__(self):
-        self._current_idx = 0
-        return self
-    
-    def __next__(self) -> 'Tensor':
-        if self._current_idx >= len(self):
-            raise StopIteration
-        else:
-            val = self[self._current_idx]
-            self._current_idx += 1
-            return val
+        # every call gets its own cursor, so nested and interleaved iterations over one tensor are independent
+        return (self[i] for i in range(len(self)))
     
     def __len__(self) -> int:
         return len(self.data)
